@@ -73,7 +73,9 @@ def plan(tier, seed):
 
 HIST_LATTICES = [([4.04, 4.04, 4.04, 90, 90, 90], "F"), ([2.87, 2.87, 2.87, 90, 90, 90], "I"), ([3.0, 3.0, 5.0, 90, 90, 120], "P"),
                  ([3.0, 4.0, 5.0, 70, 80, 110], "P"), ([5.0, 5.0, 5.0, 60, 60, 60], "P"), ([3.0, 4.0, 5.0, 90, 100, 90], "C"),
-                 ([5.0, 5.0, 13.0, 90, 90, 120], "R"), ([4.0, 4.0, 5.5, 90, 90, 90], "A")]
+                 ([5.0, 5.0, 13.0, 90, 90, 120], "R"), ([4.0, 4.0, 5.5, 90, 90, 90], "A"),
+                 # pseudo-cubic: d*(001) = 0.2500, d*(010) = 0.2508, d*(100) = 0.2513 - rings with a width, the next one starting closer than the tolerance
+                 ([3.9793, 3.9872, 4.0, 90, 90, 90], "P")]
 HIST_LIMITS = (0.41, 0.63, 0.97)
 
 
@@ -293,6 +295,17 @@ def _run_hist(desc):
                                      {"kind": "hist", "cell": cell, "sym": sym, "history": list(names)},
                                      {"n_rings": len(rings), "n_rings_fresh_object": len(fresh_rings[(l, tol)])})
                         bad = True
+                    if not bad and len(uc.ringds) >= 2 and len(names) == len(seq):
+                        # (after the last call of the history) the rings are USED (the angle tables the indexer asks for, three ring pairs): reading them changes nothing
+                        for r1, r2 in ((0, len(uc.ringds) - 1), (1, 0), (0, 0)):
+                            uc.getanglehkls(r1, r2)
+                        rings2 = [sorted(tuple(int(x) for x in hh) for hh in uc.ringhkls[d_]) for d_ in uc.ringds]
+                        if rings2 != fresh_rings[(l, tol)]:
+                            names.append("getanglehkls x3")
+                            sh.violation("history:rings-changed-by-asking-for-angle-tables",
+                                         {"kind": "hist", "cell": cell, "sym": sym, "history": list(names)},
+                                         {"ring_sizes": [len(r_) for r_ in rings2][:8], "fresh": [len(r_) for r_ in fresh_rings[(l, tol)]][:8]})
+                            bad = True
                     if bad:
                         break
             sh.evaluations += 1
